@@ -68,13 +68,18 @@ fn fault_rate(rng: &mut Rng, structural: bool) -> f64 {
     }
 }
 
-fn push_fault(plan: &mut Plan, rng: &mut Rng) {
+/// returns true when the fault was an error (a reset for every stateful stream)
+fn push_fault(plan: &mut Plan, rng: &mut Rng) -> bool {
     match rng.below(5) {
-        0 | 1 => plan.push("N", &[]),
+        0 | 1 => {
+            plan.push("N", &[]);
+            return false;
+        }
         2 => plan.push("E", &[1]),
         3 => plan.push("E", &[if rng.chance(0.5) { 1 } else { 3 }]),
         _ => plan.push("E", &[2]),
     }
+    true
 }
 
 pub const C05_KINDS: [&str; 14] = [
@@ -156,6 +161,17 @@ pub fn gen_node(prop: &str, kind: &str, profile: u8, tier: Tier, rng: &mut Rng, 
     let one_signed = rng.chance(0.5);
     plan.set("one_signed", one_signed as i64);
     let constant = if profile == 2 && rng.chance(0.15) { Some(rng.moderate_f32() * scale) } else { None };
+    // "ulp walk": consecutive samples are neighbouring floats (1..3 ulps apart), and the reference
+    // they are compared with (setpoint / command) is often 0 so that the error is exactly the sample
+    let ulp_walk = rng.chance(0.08);
+    if ulp_walk && rng.chance(0.6) {
+        match kind {
+            "pid" => plan.setf("setpoint", 0.0),
+            "cpid" => plan.set("cmd_bits", fb(0.0)),
+            _ => {}
+        }
+    }
+    let mut prev_v: Option<f32> = None;
     let mut tg = TimeGen::new(rng);
     if matches!(kind, "ma_f" | "ma_q") && rng.chance(0.5) {
         // make window and step comparable so that windows hold several samples
@@ -188,6 +204,8 @@ pub fn gen_node(prop: &str, kind: &str, profile: u8, tier: Tier, rng: &mut Rng, 
         plan.push("CS", &[tg.t, 0]);
     }
     let mut have_sample = false;
+    // samples delivered since the last error event (usize::MAX/2: none yet)
+    let mut since_error = usize::MAX / 2;
     for _ in 0..nev {
         // optional command / follow / condition activity
         if is_cpid && rng.chance(0.18) {
@@ -238,12 +256,19 @@ pub fn gen_node(prop: &str, kind: &str, profile: u8, tier: Tier, rng: &mut Rng, 
         // the input event
         let r = rng.unit();
         if r < rate {
-            push_fault(&mut plan, rng);
+            if push_fault(&mut plan, rng) {
+                since_error = 0;
+            }
         } else if profile == 0 && have_sample && rng.chance(0.08) {
             // dup: update again without a new sample
         } else {
             let t = if profile == 2 && have_sample && rng.chance(0.15) {
                 tg.t // repeated timestamp
+            } else if have_sample && since_error == 0 && rng.chance(0.2) {
+                // the first sample after an error (a reset for every stream, possibly with absent
+                // events in between) repeats the stamp of the last sample before it: a restarted
+                // stream has no memory, so this is inside every property's domain
+                tg.t
             } else if tiny_dt && rng.chance(0.25) {
                 tg.t += *rng.pick(&[1, 2, 64, 118, 119, 120, 121, 999]);
                 tg.t
@@ -251,7 +276,20 @@ pub fn gen_node(prop: &str, kind: &str, profile: u8, tier: Tier, rng: &mut Rng, 
                 tg.step(rng)
             };
             have_sample = true;
-            let v = value_gen(rng, scale, one_signed, constant);
+            since_error += 1;
+            let mut v = value_gen(rng, scale, one_signed, constant);
+            if ulp_walk {
+                if let Some(p) = prev_v {
+                    if p.is_normal() && rng.chance(0.85) {
+                        let k = rng.range(1, 3) as u32;
+                        let b = if rng.chance(0.5) { p.to_bits() + k } else { p.to_bits() - k };
+                        if f32::from_bits(b).is_normal() {
+                            v = f32::from_bits(b);
+                        }
+                    }
+                }
+            }
+            prev_v = Some(v);
             if is_cpid {
                 let p = v;
                 let vel = value_gen(rng, scale, false, None);
@@ -270,8 +308,8 @@ pub fn gen_node(prop: &str, kind: &str, profile: u8, tier: Tier, rng: &mut Rng, 
             }
         }
         // stall: sometimes change the sensor again before updating
-        if profile == 0 && rng.chance(0.06) {
-            push_fault(&mut plan, rng);
+        if profile == 0 && rng.chance(0.06) && push_fault(&mut plan, rng) {
+            since_error = 0;
         }
         plan.push("U", &[]);
         if rng.chance(extra_get_p) {
